@@ -271,6 +271,20 @@ func (c *flowCtx) paths(v ssa.Value) APSet {
 	case *ssa.Parameter:
 		if b, ok := c.closure[x]; ok {
 			out.add(b, "")
+		} else if h := x.Parent(); isNewHelper(h) && len(ctxSites[h]) == 1 {
+			// a helper extracted after the reference tree, called from one place: its parameter is the
+			// argument given there (the query continues in the caller)
+			bound := false
+			args := ctxSites[h][0].Common().Args
+			for i, p := range h.Params {
+				if p == x && i < len(args) {
+					out.add(c.paths(args[i]), "")
+					bound = true
+				}
+			}
+			if !bound {
+				out[AP{x, ""}] = true
+			}
 		} else {
 			out[AP{x, ""}] = true
 		}
